@@ -36,6 +36,7 @@ def run(chk):
     from pycaption.exceptions import RelativizationError
     from lxml import etree
     rng = chk.rng
+    asym = chk.sub("asymmetric_padding")
     N = 200 if chk.tier == "quick" else 6000
     for i in range(N):
         level = rng.choice(["set", "language", "caption", "node"])
@@ -56,6 +57,10 @@ def run(chk):
             if rng.random() < 0.6:
                 L["extent"] = ["%d%%" % rng.choice([20, 50, 80, 100]), "%d%%" % rng.choice([10, 50, 80])]
             opts = {"relativize": rng.random() < 0.5}
+            if asym.random() < 0.5:
+                # a padding whose left and right parts differ (before, after, start, end)
+                s_, e_ = asym.choice([(10, 0), (8, 2), (0, 10), (5, 1)])
+                L["padding"] = ["%d%%" % asym.choice([0, 2]), "0%", "%d%%" % s_, "%d%%" % e_]
         if i % 7 == 3:
             # relativization switched off and a layout that is only partly relative: nothing absolute may reach a WebVTT file
             writer = "webvtt"; level = rng.choice(["language", "caption", "node"])
